@@ -68,9 +68,28 @@ func (m *urlModule) buildParamsFromObject(o *goja.Object) searchParams {
 		return m.buildParamsFromIterable(o)
 	}
 
+	// The property names are taken as JavaScript values: o.Keys() returns Go strings, and a name that is not
+	// well-formed UTF-16 (a lone surrogate) does not survive the round trip, so that o.Get(k) finds nothing.
+	if entries, ok := goja.AssertFunction(m.r.Get("Object").ToObject(m.r).Get("entries")); ok {
+		pairs, err := entries(goja.Undefined(), o)
+		if err != nil {
+			panic(err)
+		}
+		m.r.ForOf(pairs, func(pair goja.Value) bool {
+			p := pair.ToObject(m.r)
+			name, value := p.Get("0"), p.Get("1")
+			if name != nil && value != nil {
+				query = append(query, searchParam{name: name.String(), value: value.String()})
+			}
+			return true
+		})
+		return query
+	}
+
 	for _, k := range o.Keys() {
-		val := o.Get(k).String()
-		query = append(query, searchParam{name: k, value: val})
+		if val := o.Get(k); val != nil {
+			query = append(query, searchParam{name: k, value: val.String()})
+		}
 	}
 
 	return query
